@@ -88,7 +88,26 @@ def _flatten_else_after_exit(tree: ast.AST) -> None:
             h.body = block(h.body)
 
 
+def _neg(e: ast.expr) -> ast.expr:
+    if isinstance(e, ast.Compare) and len(e.ops) == 1 and type(e.ops[0]) in _NEG:
+        return ast.copy_location(ast.Compare(left=e.left, ops=[_NEG[type(e.ops[0])]()], comparators=e.comparators), e)
+    if isinstance(e, ast.UnaryOp) and isinstance(e.op, ast.Not):
+        return e.operand
+    return ast.copy_location(ast.UnaryOp(op=ast.Not(), operand=e), e)
+
+
+def _demorgan_exits(tree: ast.AST) -> None:
+    """if A or B: <leave>   ->   if not (not A and not B): <leave>      (<leave> = a lone continue / break / return / raise, no else)
+    The guard-clause spelling of `if notA and notB: <rest of the block>`; the rules read the conjunction (as they do for the other spelling)."""
+    for x in ast.walk(tree):
+        if isinstance(x, ast.If) and not x.orelse and len(x.body) == 1 and isinstance(x.body[0], (ast.Continue, ast.Break, ast.Return, ast.Raise)) \
+                and isinstance(x.test, ast.BoolOp) and isinstance(x.test.op, ast.Or):
+            conj = ast.copy_location(ast.BoolOp(op=ast.And(), values=[_neg(v) for v in x.test.values]), x.test)
+            x.test = ast.copy_location(ast.UnaryOp(op=ast.Not(), operand=conj), x.test)
+
+
 def canonicalise(tree: ast.Module) -> ast.Module:
+    _demorgan_exits(tree)
     _flatten_else_after_exit(tree)
     for x in ast.walk(tree):
         if isinstance(x, (ast.FunctionDef, ast.AsyncFunctionDef)):
